@@ -16,6 +16,8 @@ CLAIMED = {
              note='Kernel level only: XML (expat), zlib/lz4 inflation, whole-file agreement of the four readers and blocks with more than two entities are outside; protozero is interpreted from its headers.', ref='§2 C02'),
  'C04': dict(text='Bounded symbolic model checking with a memory-safety oracle (every load/store checked against live objects): builder programs for nodes, ways, relations (with full members), changesets with discussions, rollback, purge_removed (all removal subsets, with callback offsets) and add_buffer/push_back/add_item/swap/move/clear run in buffers whose initial capacity and string lengths are symbolic, so growth is forced at every builder call, for auto_grow no/yes/internal; the result is read back through the library iterators and must equal what was passed in.',
              note='Capacities up to 160 (quick) / 256 (thorough); string contents concrete, ids symbolic; std::bad_alloc outside; purge_removed on buffers with non-entity top-level items outside.', ref='§2 C04'),
+ 'C15': dict(text='Bounded symbolic model checking against set/multimap models: IdSetDense (32- and 64-bit ids, tiny chunks) one operation at a time from an arbitrary valid state with symbolic chunk contents and a symbolic id (inductive step, growth and chunk borders included), iteration from states with members at symbolic positions, IdSetSmall, RelationsMapStash with symbolic 64-bit pairs through all index builders, and ItemStash add/remove/garbage_collect histories over all removal subsets.',
+             note='One-step (inductive) for IdSetDense: the representation invariant is "size = number of set bits, chunks allocated per skeleton"; production chunk size and the automatic GC trigger (>= 10000 removals) are outside.', ref='§2 C15'),
 }
 NA = {
  'C19': 'The property is its schedule quantifier (lost wake-ups, FIFO under contention, exactly-once execution); bounded symbolic interleaving with cbmc did not finish a 2-thread toy monitor in 200 s here, and enumerating schedules would be a different technique family.',
